@@ -20,7 +20,7 @@ theorem coord_mul_le (p q t : Nat) : coord p q t * q ≤ t * p := Nat.div_mul_le
 theorem lt_coord_succ_mul (p q t : Nat) (hq : 1 ≤ q) : t * p < (coord p q t + 1) * q := by
   unfold coord
   have := Nat.lt_mul_div_succ (t * p) (show 0 < q by omega)
-  rw [Nat.mul_comm]; exact this
+  rw [Nat.mul_comm q] at this; exact this
 
 /-- `⌊a·β⌋ + ⌊d·β⌋ ≤ ⌊(a+d)·β⌋` -/
 theorem coord_add_le (p q a d : Nat) (hq : 1 ≤ q) : coord p q a + coord p q d ≤ coord p q (a + d) := by
@@ -72,7 +72,7 @@ theorem errLen_ge_two (p q : Nat) (hq : 1 ≤ q) (hpq : q ≤ p) : 2 ≤ errLen 
 /-! ### the texel count -/
 
 /-- floor choice: `⌊T·β⌋ ≤ L` -/
-theorem coord_floorT_le (p q L : Nat) (hq : 1 ≤ q) (hpq : q ≤ p) : coord p q (floorT p q L) ≤ L := by
+theorem coord_floorT_le (p q L : Nat) (hq : 1 ≤ q) (_hpq : q ≤ p) : coord p q (floorT p q L) ≤ L := by
   unfold coord floorT
   have h1 := Nat.div_mul_le_self (L * q) p
   have h2 : L * q / p * p / q ≤ L * q / q := Nat.div_le_div_right h1
@@ -86,7 +86,7 @@ theorem lt_coord_floorT (p q L : Nat) (hq : 1 ≤ q) (hpq : q ≤ p) :
   have h2 : L * q < (floorT p q L + 1) * p := by
     unfold floorT
     have := Nat.lt_mul_div_succ (L * q) (show 0 < p by omega)
-    rw [Nat.mul_comm]; exact this
+    rw [Nat.mul_comm p] at this; exact this
   rw [Nat.add_mul] at h1 h2
   omega
 
@@ -300,11 +300,11 @@ theorem spansFrom_cover {p q : Nat} {a T : Nat} {cuts : List Nat} (z : Nat)
     (h1 : coord p q a + 1 ≤ z) (h2 : z ≤ coord p q T) :
     ∃ x ∈ spansFrom p q a (cuts ++ [T]), x.1 ≤ z ∧ z ≤ x.2 := by
   induction cuts generalizing a with
-  | nil => exact ⟨_, by rw [spansFrom_nil]; simp, h1, h2⟩
+  | nil => exact ⟨(coord p q a + 1, coord p q T), by rw [spansFrom_nil]; simp, h1, h2⟩
   | cons c cs ih =>
     rw [spansFrom_cons]
     by_cases hz : z ≤ coord p q c
-    · exact ⟨_, by simp, h1, hz⟩
+    · exact ⟨(coord p q a + 1, coord p q c), by simp, h1, hz⟩
     · obtain ⟨x, hx, hx1, hx2⟩ := ih (a := c) (by omega)
       exact ⟨x, by simp [hx], hx1, hx2⟩
 
